@@ -44,6 +44,19 @@ fn g_cone(rng: &mut Rng) -> SupportedConeT<f64> {
     }
 }
 
+const STRATA: [(&str, u8); 7] = [("lp_qp", 0), ("soc_small", 1), ("soc", 2), ("exp", 3), ("pow", 4), ("genpow", 5), ("psd", 6)];
+fn stratum_cone(rng: &mut Rng, kind: u8) -> SupportedConeT<f64> {
+    match kind {
+        0 => if rng.chance(1, 4) { ZeroConeT(1 + rng.below(4)) } else { NonnegativeConeT(1 + rng.below(20)) },
+        1 => SecondOrderConeT(2 + rng.below(3)),
+        2 => SecondOrderConeT(5 + rng.below(9)),
+        3 => ExponentialConeT(),
+        4 => random_cone(rng, &[4]),
+        5 => random_cone(rng, &[5]),
+        _ => PSDTriangleConeT(2 + rng.below(4)),
+    }
+}
+
 fn main() {
     let args: Vec<String> = std::env::args().collect();
     let mut out = String::from("/dev/stdout");
@@ -69,6 +82,7 @@ fn main() {
     // ------------------------------------------------------------ problems
     let mut newton_probs: Vec<Prob> = vec![];
     let mut g_probs: Vec<Prob> = vec![];
+    let mut s_probs: Vec<(String, Prob)> = vec![];
     if let Some(path) = replay.as_ref() {
         let txt = std::fs::read_to_string(path).expect("cannot read replay file");
         let v: Value = serde_json::from_str(&txt).expect("replay file is not JSON");
@@ -109,6 +123,26 @@ fn main() {
             for v in p.q.iter_mut() { *v *= sc; }
             for v in p.P.nzval.iter_mut() { *v *= sc; }
             g_probs.push(p);
+        }
+        // strata "across all supported cone types": pure problems of one cone kind each
+        // (same sizes, same well-posedness rule), so that a defect confined to one kind is
+        // not diluted by the mixtures
+        let ns = if thorough { 2000 } else { 300 };
+        for (sname, skind) in STRATA.iter() {
+            for k in 0..ns {
+                let ncones = 1 + rng.below(4);
+                let cones: Vec<_> = (0..ncones).map(|_| stratum_cone(&mut rng, *skind)).collect();
+                let m: usize = cones.iter().map(cone_dim).sum();
+                let target = 1 + (k * 31 / ns + rng.below(8)) % 30;
+                let strictly_convex = target > m || rng.chance(1, 4);
+                let n = if strictly_convex { target } else { target.min(m) };
+                let pk = if strictly_convex { 3 } else { rng.below(3) };
+                let mut p = planted(&mut rng, n, cones, pk);
+                let sc = [1.0, 1.0, 10.0, 100.0, 1000.0, 0.1, 0.01][rng.below(7)];
+                for v in p.q.iter_mut() { *v *= sc; }
+                for v in p.P.nzval.iter_mut() { *v *= sc; }
+                s_probs.push((sname.to_string(), p));
+            }
         }
     }
 
@@ -186,6 +220,19 @@ fn main() {
         sink.record(json!({"g": {"k": k, "status": status, "iterations": iters, "n": p.q.len(), "m": p.b.len(),
                                  "cones": p.cones.iter().map(cone_name).collect::<Vec<_>>(),
                                  "problem": if status != 1 { p.to_json() } else { Value::Null }}}));
+    }
+
+    for (k, (sname, p)) in s_probs.iter().enumerate() {
+        let settings = DefaultSettings { verbose: false, ..DefaultSettings::default() };
+        let r = guarded(|| {
+            let mut solver = DefaultSolver::new(&p.P, &p.q, &p.A, &p.b, &p.cones, settings);
+            solver.solve();
+            (solver.solution.status as u32, solver.solution.iterations)
+        });
+        let (status, iters) = r.unwrap_or((99, 0));
+        sink.record(json!({"gs": {"stratum": sname, "k": k, "status": status, "iterations": iters, "n": p.q.len(), "m": p.b.len(),
+                                  "cones": p.cones.iter().map(cone_name).collect::<Vec<_>>(),
+                                  "problem": if status != 1 { p.to_json() } else { Value::Null }}}));
     }
 
     sink.record(json!({"stats": {"newton_solves": nsolves, "newton_directions": nevents, "family_G_instances": g_probs.len()}}));
